@@ -37,3 +37,13 @@ C['C04'] = dict(
  text="The model's invariants Precise (after a collection the collector manages exactly what is reachable) and Nothing (after drop and the caller's releases nothing is live) are checked exhaustively; on the real code the ledger of every run - and of every run cut short by an injected error after exactly k instructions, for every k - is audited by the trace specification after the harness has released the result graph: no box live, none released twice.",
  ref="DESIGN.md 5 C04",
  note="Known finding KF-C04-SWEEP (no object is ever released by the collector) is reported as KNOWN-FINDING for the classes it explains (kept-garbage at a collection, managed-by-a-dropped-collector at the end); double releases, boxes lost by nobody and any C03 class are violations.")
+C['C13'] = dict(
+ tech="TLA+ indexing rules (NlValues.IndexGet/IndexSet) and reference semantics (NlSem) checked by TLC against recorded runs of a completely enumerated index family and random sequence-heavy programs",
+ text="Arrays of length 0-6 and strings of 0-6 characters from 1- to 4-byte code points are read and written at every index in -(len+2)..len+2, directly, through an alias, through a function parameter and through a nested alias, with every value type as index and as stored value; each run of the real interpreter (value, output showing all aliases, character-based length, error kind) is validated against the specification.",
+ ref="DESIGN.md 5 C13",
+ note="Trusted: TLC, the recorder. 'Leaves the sequence unchanged after a failed operation' is observable only in a retained session and is checked under C17's session legs.")
+C['C14'] = dict(
+ tech="TLA+ builtin table (NlValues.CallBuiltin, PrintText) checked by TLC against recorded runs of a completely enumerated builtin family; round-trip laws checked on the integer lattice and random finite floats",
+ text="Every builtin is applied to every value shape with 0-3 arguments, in conversion chains, and print to every format of up to four pieces with 0-4 arguments; each run of the real interpreter is validated against the documented result (or the admissible error kinds). number -> text -> number is checked as a law on all lattice integers and on random finite floats of every magnitude.",
+ ref="DESIGN.md 5 C14",
+ note="Trusted: TLC, the recorder, rustc's float parsing/printing as ground truth inside the round-trip laws. Text -> float beyond plain exact decimals is DontKnow (U9).")
